@@ -381,6 +381,9 @@ func ParentMain(id, tier string, seed int64) int {
 				found = true
 			}
 			ok = found
+			if !found && os.Getenv("VERIF_DEBUG") != "" {
+				fmt.Fprintf(os.Stderr, "DEBUG replay unit=%s case=%d r=%v d=%+v\n", v.Unit, v.Case, r, d)
+			}
 		}
 		if ok {
 			confirmed++
